@@ -41,6 +41,9 @@ def eventV1__newEventFromUntrustedJSONV1 : List String := [
   "if err := roomVersion.CheckCanonicalJSON(eventJSON); err != nil {",
   "return nil, BadJSONError{err}",
   "}",
+  "if err := checkUntrustedEventJSON(eventJSON); err != nil {",
+  "return nil, err",
+  "}",
   "res := &eventV1{}",
   "res.roomVersion = roomVersion.Version()",
   "var err error",
@@ -80,6 +83,22 @@ def eventV1__newEventFromUntrustedJSONV1 : List String := [
   "}",
   "err = CheckFields(res)",
   "return res, err"
+]
+
+def eventV1__signableEventJSON : List String := [
+  "func func(eventJSON []byte) []byte",
+  "signatures := gjson.GetBytes(eventJSON, \"signatures\")",
+  "if !signatures.Exists() {",
+  "return eventJSON",
+  "}",
+  "var decoded map[string]map[KeyID]spec.Base64Bytes",
+  "if json.Unmarshal([]byte(signatures.Raw), &decoded) == nil {",
+  "return eventJSON",
+  "}",
+  "if withoutSignatures, err := sjson.DeleteBytes(eventJSON, \"signatures\"); err == nil {",
+  "return withoutSignatures",
+  "}",
+  "return eventJSON"
 ]
 
 def eventV1_eventV1_AuthEventIDs : List String := [
@@ -282,16 +301,16 @@ def eventV1_eventV1_SetUnsignedField : List String := [
 
 def eventV1_eventV1_Sign : List String := [
   "func func(signingName string, keyID KeyID, privateKey ed25519.PrivateKey) PDU",
-  "eventJSON, err := signEvent(signingName, keyID, privateKey, e.eventJSON, e.roomVersion)",
+  "eventJSON, err := signEvent(signingName, keyID, privateKey, signableEventJSON(e.eventJSON), e.roomVersion)",
   "if err != nil {",
   "panic(fmt.Errorf(\"gomatrixserverlib: invalid event %v (%q)\", err, string(e.eventJSON)))",
   "}",
   "if eventJSON, err = EnforcedCanonicalJSON(eventJSON, e.roomVersion); err != nil {",
   "panic(fmt.Errorf(\"gomatrixserverlib: invalid event %v (%q)\", err, string(e.eventJSON)))",
   "}",
-  "res := &e",
-  "(*res).eventJSON = eventJSON",
-  "return *res"
+  "result := *e",
+  "result.eventJSON = eventJSON",
+  "return &result"
 ]
 
 def eventV1_eventV1_StateKey : List String := [
@@ -421,6 +440,7 @@ def eventV2__newEventFromTrustedJSONV2 : List String := [
   "res.roomVersion = roomVersion.Version()",
   "res.redacted = redacted",
   "res.eventJSON = eventJSON",
+  "res.EventIDRaw = \"\"",
   "if err := res.populateEventID(roomVersion); err != nil {",
   "return nil, err",
   "}",
@@ -450,6 +470,9 @@ def eventV2__newEventFromUntrustedJSONV2 : List String := [
   "}",
   "if err := roomVersion.CheckCanonicalJSON(eventJSON); err != nil {",
   "return nil, BadJSONError{err}",
+  "}",
+  "if err := checkUntrustedEventJSON(eventJSON); err != nil {",
+  "return nil, err",
   "}",
   "res := &eventV2{}",
   "var err error",
@@ -589,16 +612,16 @@ def eventV2_eventV2_SetUnsigned : List String := [
 
 def eventV2_eventV2_Sign : List String := [
   "func func(signingName string, keyID KeyID, privateKey ed25519.PrivateKey) PDU",
-  "eventJSON, err := signEvent(signingName, keyID, privateKey, e.eventJSON, e.roomVersion)",
+  "eventJSON, err := signEvent(signingName, keyID, privateKey, signableEventJSON(e.eventJSON), e.roomVersion)",
   "if err != nil {",
   "panic(fmt.Errorf(\"gomatrixserverlib: invalid event %v (%q)\", err, string(e.eventJSON)))",
   "}",
   "if eventJSON, err = EnforcedCanonicalJSON(eventJSON, e.roomVersion); err != nil {",
   "panic(fmt.Errorf(\"gomatrixserverlib: invalid event %v (%q)\", err, string(e.eventJSON)))",
   "}",
-  "res := &e",
-  "(*res).eventJSON = eventJSON",
-  "return *res"
+  "result := *e",
+  "result.eventJSON = eventJSON",
+  "return &result"
 ]
 
 def eventV2_eventV2_populateEventID : List String := [
@@ -617,6 +640,14 @@ def eventV2_eventV2_populateEventID : List String := [
 def eventV3__checkRoomID : List String := [
   "func func(res *eventV3) error",
   "isCreateEvent := res.Type() == spec.MRoomCreate && res.StateKeyEquals(\"\")",
+  "if isCreateEvent {",
+  "if l := utf8.RuneCountInString(res.eventFields.RoomID); l > maxIDLength {",
+  "return EventValidationError{Code: EventValidationTooLarge, Message: fmt.Sprintf(\"gomatrixserverlib: room ID is too long, length %d > maximum %d\", l, maxIDLength)}",
+  "}",
+  "if l := len(res.eventFields.RoomID); l > maxIDLength {",
+  "return EventValidationError{Code: EventValidationTooLarge, Message: fmt.Sprintf(\"gomatrixserverlib: room ID is too long, length %d bytes > maximum %d bytes\", l, maxIDLength)}",
+  "}",
+  "}",
   "if !isCreateEvent && !strings.HasPrefix(res.eventFields.RoomID, \"!\") {",
   "return fmt.Errorf(\"gomatrixserverlib: room_id must start with !\")",
   "}",
@@ -640,6 +671,7 @@ def eventV3__newEventFromTrustedJSONV3 : List String := [
   "res.roomVersion = roomVersion.Version()",
   "res.redacted = redacted",
   "res.eventJSON = eventJSON",
+  "res.EventIDRaw = \"\"",
   "if err := res.populateEventID(roomVersion); err != nil {",
   "return nil, err",
   "}",
@@ -669,6 +701,9 @@ def eventV3__newEventFromUntrustedJSONV3 : List String := [
   "}",
   "if err := roomVersion.CheckCanonicalJSON(eventJSON); err != nil {",
   "return nil, BadJSONError{err}",
+  "}",
+  "if err := checkUntrustedEventJSON(eventJSON); err != nil {",
+  "return nil, err",
   "}",
   "res := &eventV3{}",
   "var err error",
@@ -743,6 +778,20 @@ def eventV3_eventV3_RoomID : List String := [
   "return *roomID"
 ]
 
+def eventV3_eventV3_SetUnsigned : List String := [
+  "func func(unsigned interface{}) (PDU, error)",
+  "res, err := e.eventV2.SetUnsigned(unsigned)",
+  "if err != nil {",
+  "return nil, err",
+  "}",
+  "return &eventV3{eventV2: *res.(*eventV2)}, nil"
+]
+
+def eventV3_eventV3_Sign : List String := [
+  "func func(signingName string, keyID KeyID, privateKey ed25519.PrivateKey) PDU",
+  "return &eventV3{eventV2: *e.eventV2.Sign(signingName, keyID, privateKey).(*eventV2)}"
+]
+
 def event_EventValidationError_Error : List String := [
   "func func() string",
   "return e.Message"
@@ -795,6 +844,91 @@ def event__checkRoomIDField : List String := [
   "return nil"
 ]
 
+def event__checkUntrustedEventJSON : List String := [
+  "func func(eventJSON []byte) error",
+  "if name, found := duplicateJSONKey(eventJSON); found {",
+  "return BadJSONError{fmt.Errorf(\"gomatrixserverlib: duplicate key %q in event JSON\", name)}",
+  "}",
+  "var variant string",
+  "gjson.ParseBytes(eventJSON).ForEach(func(key, _ gjson.Result) bool { for _, name := range eventJSONFieldNames { if key.Str != name && strings.EqualFold(key.Str, name) { variant = key.Str return false } } return true })",
+  "if variant != \"\" {",
+  "return BadJSONError{fmt.Errorf(\"gomatrixserverlib: key %q in event JSON is a case variant of an event field\", variant)}",
+  "}",
+  "return nil"
+]
+
+def event__duplicateJSONKey : List String := [
+  "func func(data []byte) (name string, found bool)",
+  "var stack []map[string]struct{}",
+  "expectKey := false",
+  "for i := 0; i < len(data); i++ {",
+  "switch data[i] {",
+  "case '{':",
+  "stack = append(stack, map[string]struct{}{})",
+  "expectKey = true",
+  "case '[':",
+  "stack = append(stack, nil)",
+  "expectKey = false",
+  "case '}', ']':",
+  "if len(stack) == 0 {",
+  "return \"\", false",
+  "}",
+  "stack = stack[:len(stack)-1]",
+  "expectKey = false",
+  "case ',':",
+  "expectKey = len(stack) > 0 && stack[len(stack)-1] != nil",
+  "case '\"':",
+  "end, escaped := i+1, false",
+  "for ; end < len(data) && data[end] != '\"';  {",
+  "if data[end] == '\\\\' {",
+  "escaped = true",
+  "end++",
+  "}",
+  "end++",
+  "}",
+  "if end >= len(data) {",
+  "return \"\", false",
+  "}",
+  "if expectKey {",
+  "key := string(data[i+1 : end])",
+  "if escaped && json.Unmarshal(data[i:end+1], &key) != nil {",
+  "return \"\", false",
+  "}",
+  "names := stack[len(stack)-1]",
+  "if _, dup := names[key]; dup {",
+  "return key, true",
+  "}",
+  "names[key] = struct{}{}",
+  "expectKey = false",
+  "}",
+  "i = end",
+  "}",
+  "if len(stack) > maxJSONNestingDepth {",
+  "return \"\", false",
+  "}",
+  "}",
+  "return \"\", false"
+]
+
+def event__jsonFieldNames : List String := [
+  "func func(t reflect.Type) []string",
+  "var names []string",
+  "for i := 0; i < t.NumField(); i++ {",
+  "field := t.Field(i)",
+  "tag, _, _ := strings.Cut(field.Tag.Get(\"json\"), \",\")",
+  "switch {",
+  "case field.Anonymous && tag == \"\" && field.Type.Kind() == reflect.Struct:",
+  "names = append(names, jsonFieldNames(field.Type)...)",
+  "case !field.IsExported() || tag == \"-\":",
+  "case tag != \"\":",
+  "names = append(names, tag)",
+  "default:",
+  "names = append(names, field.Name)",
+  "}",
+  "}",
+  "return names"
+]
+
 def eventauth_AuthEvents_AddEvent : List String := [
   "func func(event PDU) error",
   "if event.StateKey() == nil {",
@@ -809,6 +943,9 @@ def eventauth_AuthEvents_Clear : List String := [
   "func func()",
   "for k := range a.events {",
   "delete(a.events, k)",
+  "}",
+  "for k := range a.roomIDs {",
+  "delete(a.roomIDs, k)",
   "}"
 ]
 
@@ -1039,14 +1176,8 @@ def eventauth__checkKnocking : List String := [
   "return nil"
 ]
 
-def eventauth__checkPowerLevelEventV1 : List String := [
-  "func func(sender string, createEvent PDU, oldPowerLevels, newPowerLevels PowerLevelContent) error",
-  "return nil"
-]
-
-def eventauth__checkPowerLevelEventV2 : List String := [
-  "func func(sender string, createEvent PDU, oldPowerLevels, newPowerLevels PowerLevelContent) error",
-  "senderLevel := oldPowerLevels.UserLevel(spec.SenderID(sender))",
+def eventauth__checkNotificationLevels : List String := [
+  "func func(senderLevel int64, oldPowerLevels, newPowerLevels PowerLevelContent) error",
   "type levelPair struct { old int64 new int64 userID string }",
   "notificationLevelChecks := []levelPair{}",
   "for notification := range newPowerLevels.Notifications {",
@@ -1069,17 +1200,32 @@ def eventauth__checkPowerLevelEventV2 : List String := [
   "return nil"
 ]
 
+def eventauth__checkPowerLevelEventV1 : List String := [
+  "func func(sender string, createEvent PDU, oldPowerLevels, newPowerLevels PowerLevelContent) error",
+  "return nil"
+]
+
+def eventauth__checkPowerLevelEventV2 : List String := [
+  "func func(sender string, createEvent PDU, oldPowerLevels, newPowerLevels PowerLevelContent) error",
+  "senderLevel := oldPowerLevels.UserLevel(spec.SenderID(sender))",
+  "return checkNotificationLevels(senderLevel, oldPowerLevels, newPowerLevels)"
+]
+
 def eventauth__checkPowerLevelEventV3 : List String := [
   "func func(sender string, createEvent PDU, oldPowerLevels, newPowerLevels PowerLevelContent) error",
-  "if err := checkPowerLevelEventV2(sender, createEvent, oldPowerLevels, newPowerLevels); err != nil {",
-  "return err",
-  "}",
   "var content CreateContent",
   "if err := json.Unmarshal(createEvent.Content(), &content); err != nil {",
   "return errorf(\"checkPowerLevelEventV3 unparseable create event content: %s\", err.Error())",
   "}",
   "creators := []string{string(createEvent.SenderID())}",
   "creators = append(creators, content.AdditionalCreators...)",
+  "senderLevel := oldPowerLevels.UserLevel(spec.SenderID(sender))",
+  "if slices.Contains(creators, sender) {",
+  "senderLevel = CreatorPowerLevel",
+  "}",
+  "if err := checkNotificationLevels(senderLevel, oldPowerLevels, newPowerLevels); err != nil {",
+  "return err",
+  "}",
   "for userID := range newPowerLevels.Users {",
   "if slices.Contains(creators, userID) {",
   "return &EventValidationError{Code: 400, Message: fmt.Sprintf(\"new power levels event must not contain creator '%s'\", userID)}",
@@ -1178,11 +1324,19 @@ def eventauth_allowerContext_aliasEventAllowed : List String := [
 
 def eventauth_allowerContext_allowed : List String := [
   "func func(event PDU) error",
+  "if !a.provider.Valid() {",
+  "return errorf(\"authEvents contains events from different rooms\")",
+  "}",
   "switch event.Type() {",
   "case spec.MRoomCreate:",
   "return a.createEventAllowed(event)",
   "case spec.MRoomAliases:",
   "return a.aliasEventAllowed(event)",
+  "}",
+  "if a.powerLevelsErr != nil {",
+  "return a.powerLevelsErr",
+  "}",
+  "switch event.Type() {",
   "case spec.MRoomMember:",
   "return a.memberEventAllowed(event)",
   "case spec.MRoomPowerLevels:",
@@ -1363,6 +1517,7 @@ def eventauth_allowerContext_update : List String := [
   "a.createEvent, a.powerLevelsEvent, a.joinRuleEvent = nil, nil, nil",
   "a.resetCreate()",
   "a.powerLevels = PowerLevelContent{}",
+  "a.powerLevelsErr = nil",
   "a.joinRule = JoinRuleContent{}",
   "}",
   "if e, _ := provider.Create(); a.createEvent == nil || a.createEvent != e {",
@@ -1385,9 +1540,11 @@ def eventauth_allowerContext_update : List String := [
   "if p, err := NewPowerLevelContentFromAuthEvents(provider, creator); err == nil {",
   "a.powerLevelsEvent = e",
   "a.powerLevels = p",
+  "a.powerLevelsErr = nil",
   "} else {",
   "a.powerLevelsEvent = nil",
   "a.powerLevels = PowerLevelContent{}",
+  "a.powerLevelsErr = err",
   "}",
   "}",
   "if e, _ := provider.JoinRules(); a.joinRuleEvent == nil || a.joinRuleEvent != e {",
@@ -1596,7 +1753,7 @@ def eventauth_membershipAllower_membershipAllowedSelf : List String := [
   "case spec.Invite:",
   "return nil",
   "case spec.Knock:",
-  "return nil",
+  "return m.roomVersionImpl.CheckKnockingAllowed(string(m.roomVersionImpl.Version()), m.senderID, m.targetID, spec.Knock, m.oldMember.Membership)",
   "default:",
   "return m.membershipFailed(\"sender cannot leave from membership state %q\", m.oldMember.Membership)",
   "}",
@@ -1822,9 +1979,14 @@ def eventcontent__NewMemberContentFromAuthEvents : List String := [
 
 def eventcontent__NewMemberContentFromEvent : List String := [
   "func func(event PDU) (c MemberContent, err error)",
-  "if err = json.Unmarshal(event.Content(), &c); err != nil {",
+  "content, err := exactFieldsOnly(event.Content(), &c)",
+  "if err != nil {",
+  "err = errorf(\"unparseable member event content: %s\", err.Error())",
+  "return",
+  "}",
+  "if err = json.Unmarshal(content, &c); err != nil {",
   "var partial membershipContent",
-  "if err = json.Unmarshal(event.Content(), &partial); err != nil {",
+  "if err = json.Unmarshal(content, &partial); err != nil {",
   "err = errorf(\"unparseable member event content: %s\", err.Error())",
   "return",
   "}",
@@ -1963,6 +2125,10 @@ def eventcontent__isValidUserID : List String := [
 
 def eventcontent__parseIntegerPowerLevels : List String := [
   "func func(contentBytes []byte, c *PowerLevelContent) error",
+  "var nulls struct { Ban notNullLevel `json:\"ban\"` Invite notNullLevel `json:\"invite\"` Kick notNullLevel `json:\"kick\"` Redact notNullLevel `json:\"redact\"` Users notNullLevels `json:\"users\"` UsersDefault notNullLevel `json:\"users_default\"` Events notNullLevels `json:\"events\"` EventsDefault notNullLevel `json:\"events_default\"` StateDefault notNullLevel `json:\"state_default\"` Notifications notNullLevels `json:\"notifications\"` }",
+  "if err := json.Unmarshal(contentBytes, &nulls); err != nil {",
+  "return err",
+  "}",
   "return json.Unmarshal(contentBytes, c)"
 ]
 
@@ -2031,6 +2197,26 @@ def eventcontent_levelJSONValue_assignIfExists : List String := [
   "}"
 ]
 
+def eventcontent_notNullLevel_UnmarshalJSON : List String := [
+  "func func(data []byte) error",
+  "if string(data) == \"null\" {",
+  "return fmt.Errorf(\"power level is null\")",
+  "}",
+  "return nil"
+]
+
+def eventcontent_notNullLevels_UnmarshalJSON : List String := [
+  "func func(data []byte) error",
+  "var levels map[string]notNullLevel",
+  "if err := json.Unmarshal(data, &levels); err != nil {",
+  "return err",
+  "}",
+  "if levels == nil {",
+  "return fmt.Errorf(\"map of power levels is null\")",
+  "}",
+  "return nil"
+]
+
 def eventcrypto__VerifyAllEventSignatures : List String := [
   "func func(ctx context.Context, events []PDU, verifier JSONVerifier, userIDForSender spec.UserIDForSender) []error",
   "errors := make([]error, 0, len(events))",
@@ -2073,7 +2259,7 @@ def eventcrypto__VerifyEventSignatures : List String := [
   "}",
   "}",
   "if e.Type() == spec.MRoomMember {",
-  "membership, err := e.Membership()",
+  "membership, err := membershipForSignatures(e)",
   "if err != nil {",
   "return fmt.Errorf(\"failed to get membership of membership event: %w\", err)",
   "}",
@@ -2081,6 +2267,9 @@ def eventcrypto__VerifyEventSignatures : List String := [
   "mapping, err := getMXIDMapping(e)",
   "if err != nil {",
   "return err",
+  "}",
+  "if mapping.UserRoomKey != e.SenderID() {",
+  "return fmt.Errorf(\"mxid_mapping is for %q, not for the sender %q\", mapping.UserRoomKey, e.SenderID())",
   "}",
   "err = validateMXIDMappingSignatures(ctx, e, *mapping, verifier, verImpl)",
   "if err != nil {",
@@ -2196,13 +2385,21 @@ def eventcrypto__emptyAuthorisedViaServerName : List String := [
 
 def eventcrypto__extractAuthorisedViaServerName : List String := [
   "func func(content []byte) (spec.ServerName, error)",
-  "if v := gjson.GetBytes(content, \"join_authorised_via_users_server\"); v.Exists() {",
-  "_, serverName, err := SplitID('@', v.String())",
+  "var members map[string]json.RawMessage",
+  "if err := json.Unmarshal(content, &members); err != nil {",
+  "return \"\", fmt.Errorf(\"failed to read member content: %w\", err)",
+  "}",
+  "if v, ok := members[\"join_authorised_via_users_server\"]; ok {",
+  "var userID string",
+  "if err := json.Unmarshal(v, &userID); err != nil {",
+  "return \"\", fmt.Errorf(\"failed to read authorised user: %w\", err)",
+  "}",
+  "_, serverName, err := SplitID('@', userID)",
   "if err != nil {",
   "return \"\", fmt.Errorf(\"failed to split authorised server: %w\", err)",
   "}",
   "if serverName == \"\" {",
-  "return \"\", fmt.Errorf(\"authorised user %q has no server name\", v.String())",
+  "return \"\", fmt.Errorf(\"authorised user %q has no server name\", userID)",
   "}",
   "return serverName, nil",
   "}",
@@ -2212,7 +2409,11 @@ def eventcrypto__extractAuthorisedViaServerName : List String := [
 def eventcrypto__getMXIDMapping : List String := [
   "func func(e PDU) (*MXIDMapping, error)",
   "var content MemberContent",
-  "err := json.Unmarshal(e.Content(), &content)",
+  "exact, err := exactFieldsOnly(e.Content(), &content)",
+  "if err != nil {",
+  "return nil, err",
+  "}",
+  "err = json.Unmarshal(exact, &content)",
   "if err != nil {",
   "return nil, err",
   "}",
@@ -2220,6 +2421,22 @@ def eventcrypto__getMXIDMapping : List String := [
   "return nil, fmt.Errorf(\"missing mxid_mapping\")",
   "}",
   "return content.MXIDMapping, nil"
+]
+
+def eventcrypto__membershipForSignatures : List String := [
+  "func func(e PDU) (string, error)",
+  "var content struct { Membership string `json:\"membership\"` }",
+  "exact, err := exactFieldsOnly(e.Content(), &content)",
+  "if err != nil {",
+  "return \"\", err",
+  "}",
+  "if err = json.Unmarshal(exact, &content); err != nil {",
+  "return \"\", err",
+  "}",
+  "if e.StateKey() == nil {",
+  "return \"\", fmt.Errorf(\"gomatrixserverlib: not a m.room.member event, missing state key\")",
+  "}",
+  "return content.Membership, nil"
 ]
 
 def eventcrypto__referenceOfEvent : List String := [
@@ -2787,6 +3004,9 @@ def fclient_request_FederationRequest_Sign : List String := [
   "return fmt.Errorf(\"gomatrixserverlib: the request is already signed by a different server\")",
   "}",
   "r.fields.Origin = serverName",
+  "if err := r.checkFieldsUTF8(); err != nil {",
+  "return err",
+  "}",
   "data, err := json.Marshal(r.fields)",
   "if err != nil {",
   "return err",
@@ -2796,6 +3016,16 @@ def fclient_request_FederationRequest_Sign : List String := [
   "return err",
   "}",
   "return json.Unmarshal(signedData, &r.fields)"
+]
+
+def fclient_request_FederationRequest_checkFieldsUTF8 : List String := [
+  "func func() error",
+  "for _, field := range []string{r.fields.Method, r.fields.RequestURI, string(r.fields.Origin), string(r.fields.Destination)} {",
+  "if !utf8.ValidString(field) {",
+  "return fmt.Errorf(\"gomatrixserverlib: the request method, URI, origin and destination must be valid UTF-8, not %q\", field)",
+  "}",
+  "}",
+  "return nil"
 ]
 
 def fclient_request__NewFederationRequest : List String := [
@@ -2919,6 +3149,9 @@ def fclient_request__readHTTPRequest : List String := [
   "var result FederationRequest",
   "result.fields.Method = req.Method",
   "result.fields.RequestURI = req.URL.RequestURI()",
+  "if err := result.checkFieldsUTF8(); err != nil {",
+  "return nil, err",
+  "}",
   "content, err := io.ReadAll(req.Body)",
   "if err != nil {",
   "return nil, err",
@@ -2949,6 +3182,9 @@ def fclient_request__readHTTPRequest : List String := [
   "}",
   "result.fields.Origin = origin",
   "result.fields.Destination = destination",
+  "if err := result.checkFieldsUTF8(); err != nil {",
+  "return nil, err",
+  "}",
   "if result.fields.Signatures == nil {",
   "result.fields.Signatures = map[spec.ServerName]map[gomatrixserverlib.KeyID]string{origin: {key: sig}}",
   "} else {",
@@ -3216,7 +3452,7 @@ def keys_ServerKeys_PublicKey : List String := [
   "if currentKey, ok := keys.VerifyKeys[keyID]; ok && (atTS <= keys.ValidUntilTS) {",
   "return currentKey.Key",
   "}",
-  "if oldKey, ok := keys.OldVerifyKeys[keyID]; ok && (atTS <= oldKey.ExpiredTS) {",
+  "if oldKey, ok := keys.OldVerifyKeys[keyID]; ok && (atTS < oldKey.ExpiredTS) {",
   "return oldKey.Key",
   "}",
   "return nil"
@@ -3292,6 +3528,9 @@ def signing__ListKeyIDs : List String := [
 def signing__SignJSON : List String := [
   "func func(signingName string, keyID KeyID, privateKey ed25519.PrivateKey, message []byte) (signed []byte, err error)",
   "preserve := struct { Signatures map[string]map[KeyID]spec.Base64Bytes `json:\"signatures\"` Unsigned spec.RawJSON `json:\"unsigned\"` }{Signatures: map[string]map[KeyID]spec.Base64Bytes{}}",
+  "if err = checkStrictJSON(message, false); err != nil {",
+  "return nil, err",
+  "}",
   "var object map[string]json.RawMessage",
   "if err = json.Unmarshal(message, &object); err != nil {",
   "return nil, err",
@@ -3343,6 +3582,9 @@ def signing__VerifyJSON : List String := [
   "func func(signingName string, keyID KeyID, publicKey ed25519.PublicKey, message []byte) error",
   "var object map[string]*json.RawMessage",
   "var signatures map[string]map[KeyID]spec.Base64Bytes",
+  "if err := checkStrictJSON(message, true); err != nil {",
+  "return err",
+  "}",
   "if err := json.Unmarshal(message, &object); err != nil {",
   "return err",
   "}",
@@ -3376,6 +3618,54 @@ def signing__VerifyJSON : List String := [
   "return fmt.Errorf(\"Bad signature from %q with ID %q\", signingName, keyID)",
   "}",
   "return nil"
+]
+
+def signing__checkStrictJSON : List String := [
+  "func func(message []byte, requireUTF8 bool) error",
+  "if !gjson.ValidBytes(message) {",
+  "return fmt.Errorf(\"gomatrixserverlib: invalid JSON\")",
+  "}",
+  "return checkStrictValue(gjson.ParseBytes(message), requireUTF8)"
+]
+
+def signing__checkStrictString : List String := [
+  "func func(raw string, requireUTF8 bool) error",
+  "if requireUTF8 && !utf8.ValidString(raw) {",
+  "return fmt.Errorf(\"gomatrixserverlib: JSON string is not valid UTF-8\")",
+  "}",
+  "for i := 0; i+1 < len(raw); i++ {",
+  "if raw[i] != '\\\\' {",
+  "continue",
+  "}",
+  "i++",
+  "if raw[i] != 'u' || i+4 >= len(raw) {",
+  "continue",
+  "}",
+  "high := readHexDigits([]byte(raw[i+1 : i+5]))",
+  "i += 4",
+  "if !utf16.IsSurrogate(high) {",
+  "continue",
+  "}",
+  "if i+6 >= len(raw) || raw[i+1] != '\\\\' || raw[i+2] != 'u' || utf16.DecodeRune(high, readHexDigits([]byte(raw[i+3:i+7]))) == utf8.RuneError {",
+  "return fmt.Errorf(\"gomatrixserverlib: JSON string has an unpaired surrogate escape\")",
+  "}",
+  "i += 6",
+  "}",
+  "return nil"
+]
+
+def signing__checkStrictValue : List String := [
+  "func func(value gjson.Result, requireUTF8 bool) (err error)",
+  "switch {",
+  "case value.Type == gjson.String:",
+  "return checkStrictString(value.Raw, requireUTF8)",
+  "case value.IsObject():",
+  "names := make(map[string]struct{})",
+  "value.ForEach(func(name, member gjson.Result) bool { if err = checkStrictString(name.Raw, requireUTF8); err != nil { return false } if _, duplicate := names[name.Str]; duplicate { err = fmt.Errorf(\"gomatrixserverlib: duplicate object member %q\", name.Str) return false } names[name.Str] = struct{}{} err = checkStrictValue(member, requireUTF8) return err == nil })",
+  "case value.IsArray():",
+  "value.ForEach(func(_, element gjson.Result) bool { err = checkStrictValue(element, requireUTF8) return err == nil })",
+  "}",
+  "return err"
 ]
 
 def spec_senderid_SenderID_IsPseudoID : List String := [
@@ -4080,6 +4370,6 @@ def stateresolutionv2_stateResolverV2_wrapPowerLevelEventsForSort : List String 
   "return block"
 ]
 
-def functions : List String := ["eventV1.go:.newEventFromTrustedJSONV1", "eventV1.go:.newEventFromTrustedJSONWithEventIDV1", "eventV1.go:.newEventFromUntrustedJSONV1", "eventV1.go:eventV1.AuthEventIDs", "eventV1.go:eventV1.Content", "eventV1.go:eventV1.Depth", "eventV1.go:eventV1.EventID", "eventV1.go:eventV1.HistoryVisibility", "eventV1.go:eventV1.IsSticky", "eventV1.go:eventV1.JSON", "eventV1.go:eventV1.JoinRule", "eventV1.go:eventV1.MarshalJSON", "eventV1.go:eventV1.Membership", "eventV1.go:eventV1.OriginServerTS", "eventV1.go:eventV1.PowerLevels", "eventV1.go:eventV1.PrevEventIDs", "eventV1.go:eventV1.Redact", "eventV1.go:eventV1.Redacted", "eventV1.go:eventV1.Redacts", "eventV1.go:eventV1.RoomID", "eventV1.go:eventV1.SenderID", "eventV1.go:eventV1.SetUnsigned", "eventV1.go:eventV1.SetUnsignedField", "eventV1.go:eventV1.Sign", "eventV1.go:eventV1.StateKey", "eventV1.go:eventV1.StateKeyEquals", "eventV1.go:eventV1.StickyEndTime", "eventV1.go:eventV1.ToHeaderedJSON", "eventV1.go:eventV1.Type", "eventV1.go:eventV1.Unsigned", "eventV1.go:eventV1.Version", "eventV1.go:eventV1.assumedStickyStartTime", "eventV1.go:eventV1.calculatedStickyEndTime", "eventV2.go:.CheckFields", "eventV2.go:.newEventFromTrustedJSONV2", "eventV2.go:.newEventFromTrustedJSONWithEventIDV2", "eventV2.go:.newEventFromUntrustedJSONV2", "eventV2.go:eventV2.AuthEventIDs", "eventV2.go:eventV2.EventID", "eventV2.go:eventV2.MarshalJSON", "eventV2.go:eventV2.PrevEventIDs", "eventV2.go:eventV2.Redact", "eventV2.go:eventV2.SenderID", "eventV2.go:eventV2.SetUnsigned", "eventV2.go:eventV2.Sign", "eventV2.go:eventV2.populateEventID", "eventV3.go:.checkRoomID", "eventV3.go:.newEventFromTrustedJSONV3", "eventV3.go:.newEventFromTrustedJSONWithEventIDV3", "eventV3.go:.newEventFromUntrustedJSONV3", "eventV3.go:eventV3.AuthEventIDs", "eventV3.go:eventV3.RoomID", "event.go:EventValidationError.Error", "event.go:.SplitID", "event.go:.checkID", "event.go:.checkRoomIDField", "eventauth.go:AuthEvents.AddEvent", "eventauth.go:AuthEvents.Clear", "eventauth.go:AuthEvents.Create", "eventauth.go:AuthEvents.JoinRules", "eventauth.go:AuthEvents.Member", "eventauth.go:AuthEvents.PowerLevels", "eventauth.go:AuthEvents.ThirdPartyInvite", "eventauth.go:AuthEvents.Valid", "eventauth.go:NotAllowed.Error", "eventauth.go:StateNeeded.AuthEventReferences", "eventauth.go:StateNeeded.Tuples", "eventauth.go:.Allowed", "eventauth.go:.NewAuthEvents", "eventauth.go:.StateNeededForAuth", "eventauth.go:.StateNeededForProtoEvent", "eventauth.go:.accumulateStateNeeded", "eventauth.go:.allowRestrictedJoins", "eventauth.go:.checkEventLevels", "eventauth.go:.checkKnocking", "eventauth.go:.checkPowerLevelEventV1", "eventauth.go:.checkPowerLevelEventV2", "eventauth.go:.checkPowerLevelEventV3", "eventauth.go:.checkUserLevels", "eventauth.go:.disallowKnocking", "eventauth.go:.disallowRestrictedJoins", "eventauth.go:.errorf", "eventauth.go:.newAllowerContext", "eventauth.go:.thirdPartyInviteToken", "eventauth.go:allowerContext.aliasEventAllowed", "eventauth.go:allowerContext.allowed", "eventauth.go:allowerContext.createEventAllowed", "eventauth.go:allowerContext.defaultEventAllowed", "eventauth.go:allowerContext.memberEventAllowed", "eventauth.go:allowerContext.newEventAllower", "eventauth.go:allowerContext.newMembershipAllower", "eventauth.go:allowerContext.powerLevelsEventAllowed", "eventauth.go:allowerContext.redactEventAllowed", "eventauth.go:allowerContext.resetCreate", "eventauth.go:allowerContext.update", "eventauth.go:allowerContext.userPowerLevel", "eventauth.go:eventAllower.commonChecks", "eventauth.go:membershipAllower.membershipAllowed", "eventauth.go:membershipAllower.membershipAllowedFromThirdPartyInvite", "eventauth.go:membershipAllower.membershipAllowedOther", "eventauth.go:membershipAllower.membershipAllowedSelf", "eventauth.go:membershipAllower.membershipAllowedSelfForRestrictedJoin", "eventauth.go:membershipAllower.membershipFailed", "eventcontent.go:CreateContent.DomainAllowed", "eventcontent.go:CreateContent.UserIDAllowed", "eventcontent.go:HistoryVisibility.Scan", "eventcontent.go:HistoryVisibility.Value", "eventcontent.go:MXIDMapping.Sign", "eventcontent.go:PowerLevelContent.Defaults", "eventcontent.go:PowerLevelContent.EventLevel", "eventcontent.go:PowerLevelContent.NotificationLevel", "eventcontent.go:PowerLevelContent.UserLevel", "eventcontent.go:.CreatorsFromCreateEvent", "eventcontent.go:.NewCreateContentFromAuthEvents", "eventcontent.go:.NewJoinRuleContentFromAuthEvents", "eventcontent.go:.NewMemberContentFromAuthEvents", "eventcontent.go:.NewMemberContentFromEvent", "eventcontent.go:.NewPowerLevelContentFromAuthEvents", "eventcontent.go:.NewPowerLevelContentFromEvent", "eventcontent.go:.NewThirdPartyInviteContentFromAuthEvents", "eventcontent.go:.checkCreateEventV1", "eventcontent.go:.checkCreateEventV2", "eventcontent.go:.checkCreateEventV3", "eventcontent.go:.domainFromID", "eventcontent.go:.isValidUserID", "eventcontent.go:.parseIntegerPowerLevels", "eventcontent.go:.parsePowerLevels", "eventcontent.go:levelJSONValue.UnmarshalJSON", "eventcontent.go:levelJSONValue.assignIfExists", "eventcrypto.go:.VerifyAllEventSignatures", "eventcrypto.go:.VerifyEventSignatures", "eventcrypto.go:.addContentHashesToEvent", "eventcrypto.go:.checkEventContentHash", "eventcrypto.go:.emptyAuthorisedViaServerName", "eventcrypto.go:.extractAuthorisedViaServerName", "eventcrypto.go:.getMXIDMapping", "eventcrypto.go:.referenceOfEvent", "eventcrypto.go:.referenceOfEventForVersion", "eventcrypto.go:.signEvent", "eventcrypto.go:.validateMXIDMappingSignatures", "eventversion.go:RoomVersionImpl.CheckCanonicalJSON", "eventversion.go:RoomVersionImpl.CheckCreateEvent", "eventversion.go:RoomVersionImpl.CheckKnockingAllowed", "eventversion.go:RoomVersionImpl.CheckPowerLevelEvent", "eventversion.go:RoomVersionImpl.CheckRestrictedJoin", "eventversion.go:RoomVersionImpl.CheckRestrictedJoinsAllowed", "eventversion.go:RoomVersionImpl.DomainlessRoomIDs", "eventversion.go:RoomVersionImpl.EventFormat", "eventversion.go:RoomVersionImpl.EventIDFormat", "eventversion.go:RoomVersionImpl.NewEventBuilder", "eventversion.go:RoomVersionImpl.NewEventBuilderFromProtoEvent", "eventversion.go:RoomVersionImpl.NewEventFromTrustedJSON", "eventversion.go:RoomVersionImpl.NewEventFromTrustedJSONWithEventID", "eventversion.go:RoomVersionImpl.NewEventFromUntrustedJSON", "eventversion.go:RoomVersionImpl.ParsePowerLevels", "eventversion.go:RoomVersionImpl.PrivilegedCreators", "eventversion.go:RoomVersionImpl.RedactEventJSON", "eventversion.go:RoomVersionImpl.RestrictedJoinServername", "eventversion.go:RoomVersionImpl.SignatureValidityCheck", "eventversion.go:RoomVersionImpl.Stable", "eventversion.go:RoomVersionImpl.StateResAlgorithm", "eventversion.go:RoomVersionImpl.Version", "eventversion.go:UnsupportedRoomVersionError.Error", "eventversion.go:.GetRoomVersion", "eventversion.go:.KnownRoomVersion", "eventversion.go:.MustGetRoomVersion", "eventversion.go:.NewEventFromHeaderedJSON", "eventversion.go:.RoomVersions", "eventversion.go:.SetRoomVersion", "eventversion.go:.StableRoomVersion", "eventversion.go:.StableRoomVersions", "fclient/federationtypes.go:DeviceKeys.Scan", "fclient/federationtypes.go:DeviceKeys.Value", "fclient/federationtypes.go:DeviceKeys.isCrossSigningBody", "fclient/federationtypes.go:MSC2836EventRelationshipsRequest.Defaults", "fclient/federationtypes.go:RespInvite.MarshalJSON", "fclient/federationtypes.go:RespInvite.UnmarshalJSON", "fclient/federationtypes.go:RespMakeJoin.GetJoinEvent", "fclient/federationtypes.go:RespMakeJoin.GetRoomVersion", "fclient/federationtypes.go:RespPeek.GetAuthEvents", "fclient/federationtypes.go:RespPeek.GetStateEvents", "fclient/federationtypes.go:RespPeek.MarshalJSON", "fclient/federationtypes.go:RespSendJoin.GetAuthEvents", "fclient/federationtypes.go:RespSendJoin.GetJoinEvent", "fclient/federationtypes.go:RespSendJoin.GetMembersOmitted", "fclient/federationtypes.go:RespSendJoin.GetOrigin", "fclient/federationtypes.go:RespSendJoin.GetServersInRoom", "fclient/federationtypes.go:RespSendJoin.GetStateEvents", "fclient/federationtypes.go:RespSendJoin.MarshalJSON", "fclient/federationtypes.go:RespStateIDs.GetAuthEventIDs", "fclient/federationtypes.go:RespStateIDs.GetStateEventIDs", "fclient/federationtypes.go:RespState.GetAuthEvents", "fclient/federationtypes.go:RespState.GetStateEvents", "fclient/federationtypes.go:RespState.MarshalJSON", "fclient/federationtypes.go:RespUserDevices.UnmarshalJSON", "fclient/federationtypes.go:.NewMSC2836EventRelationshipsRequest", "fclient/request.go:FederationRequest.Content", "fclient/request.go:FederationRequest.Destination", "fclient/request.go:FederationRequest.HTTPRequest", "fclient/request.go:FederationRequest.Method", "fclient/request.go:FederationRequest.Origin", "fclient/request.go:FederationRequest.RequestURI", "fclient/request.go:FederationRequest.SetContent", "fclient/request.go:FederationRequest.Sign", "fclient/request.go:.NewFederationRequest", "fclient/request.go:.ParseAuthorization", "fclient/request.go:.VerifyHTTPRequest", "fclient/request.go:.isSafeInHTTPQuotedString", "fclient/request.go:.readHTTPRequest", "json.go:EventJSONs.TrustedEvents", "json.go:EventJSONs.UntrustedEvents", "json.go:.CanonicalJSON", "json.go:.CanonicalJSONAssumeValid", "json.go:.CompactJSON", "json.go:.EnforcedCanonicalJSON", "json.go:.NewEventJSONsFromEvents", "json.go:.SortJSON", "json.go:.compactUnicodeEscape", "json.go:.isNegativeZeroLiteral", "json.go:.noVerifyCanonicalJSON", "json.go:.readHexDigits", "json.go:.sortJSONArray", "json.go:.sortJSONObject", "json.go:.sortJSONValue", "json.go:.verifyEnforcedCanonicalJSON", "keys.go:ServerKeys.MarshalJSON", "keys.go:ServerKeys.PublicKey", "keys.go:ServerKeys.UnmarshalJSON", "keys.go:.CheckKeys", "keys.go:.checkVerifyKeys", "signing.go:.ListKeyIDs", "signing.go:.SignJSON", "signing.go:.VerifyJSON", "spec/senderid.go:SenderID.IsPseudoID", "spec/senderid.go:SenderID.IsUserID", "spec/senderid.go:SenderID.RawBytes", "spec/senderid.go:SenderID.ToPseudoID", "spec/senderid.go:SenderID.ToUserID", "spec/senderid.go:.SenderIDFromPseudoIDKey", "spec/senderid.go:.SenderIDFromUserID", "stateresolutionv2.go:.HeaderedReverseTopologicalOrdering", "stateresolutionv2.go:.ResolveStateConflictsV2", "stateresolutionv2.go:.ResolveStateConflictsV2New", "stateresolutionv2.go:.ReverseTopologicalOrdering", "stateresolutionv2.go:.creatorsFromCreateEventOrNone", "stateresolutionv2.go:.eventMapFromEvents", "stateresolutionv2.go:.getCreateEvent", "stateresolutionv2.go:.isControlEvent", "stateresolutionv2.go:.kahnsAlgorithmUsingAuthEvents", "stateresolutionv2.go:.kahnsAlgorithmUsingPrevEvents", "stateresolutionv2.go:.newPDUSet", "stateresolutionv2.go:stateResolverV2.applyEvents", "stateresolutionv2.go:stateResolverV2.authAndApplyEvents", "stateresolutionv2.go:stateResolverV2.calculateAuthDifference", "stateresolutionv2.go:stateResolverV2.calculateAuthDifferenceNew", "stateresolutionv2.go:stateResolverV2.calculateFullAuthChainAndConflictedSubgraph", "stateresolutionv2.go:stateResolverV2.createPowerLevelMainline", "stateresolutionv2.go:stateResolverV2.getFirstPowerLevelMainlineEvent", "stateresolutionv2.go:stateResolverV2.getPowerLevelFromAuthEvents", "stateresolutionv2.go:stateResolverV2.mainlineOrdering", "stateresolutionv2.go:stateResolverV2.reverseTopologicalOrdering", "stateresolutionv2.go:stateResolverV2.wrapOtherEventsForSort", "stateresolutionv2.go:stateResolverV2.wrapPowerLevelEventsForSort"]
+def functions : List String := ["eventV1.go:.newEventFromTrustedJSONV1", "eventV1.go:.newEventFromTrustedJSONWithEventIDV1", "eventV1.go:.newEventFromUntrustedJSONV1", "eventV1.go:.signableEventJSON", "eventV1.go:eventV1.AuthEventIDs", "eventV1.go:eventV1.Content", "eventV1.go:eventV1.Depth", "eventV1.go:eventV1.EventID", "eventV1.go:eventV1.HistoryVisibility", "eventV1.go:eventV1.IsSticky", "eventV1.go:eventV1.JSON", "eventV1.go:eventV1.JoinRule", "eventV1.go:eventV1.MarshalJSON", "eventV1.go:eventV1.Membership", "eventV1.go:eventV1.OriginServerTS", "eventV1.go:eventV1.PowerLevels", "eventV1.go:eventV1.PrevEventIDs", "eventV1.go:eventV1.Redact", "eventV1.go:eventV1.Redacted", "eventV1.go:eventV1.Redacts", "eventV1.go:eventV1.RoomID", "eventV1.go:eventV1.SenderID", "eventV1.go:eventV1.SetUnsigned", "eventV1.go:eventV1.SetUnsignedField", "eventV1.go:eventV1.Sign", "eventV1.go:eventV1.StateKey", "eventV1.go:eventV1.StateKeyEquals", "eventV1.go:eventV1.StickyEndTime", "eventV1.go:eventV1.ToHeaderedJSON", "eventV1.go:eventV1.Type", "eventV1.go:eventV1.Unsigned", "eventV1.go:eventV1.Version", "eventV1.go:eventV1.assumedStickyStartTime", "eventV1.go:eventV1.calculatedStickyEndTime", "eventV2.go:.CheckFields", "eventV2.go:.newEventFromTrustedJSONV2", "eventV2.go:.newEventFromTrustedJSONWithEventIDV2", "eventV2.go:.newEventFromUntrustedJSONV2", "eventV2.go:eventV2.AuthEventIDs", "eventV2.go:eventV2.EventID", "eventV2.go:eventV2.MarshalJSON", "eventV2.go:eventV2.PrevEventIDs", "eventV2.go:eventV2.Redact", "eventV2.go:eventV2.SenderID", "eventV2.go:eventV2.SetUnsigned", "eventV2.go:eventV2.Sign", "eventV2.go:eventV2.populateEventID", "eventV3.go:.checkRoomID", "eventV3.go:.newEventFromTrustedJSONV3", "eventV3.go:.newEventFromTrustedJSONWithEventIDV3", "eventV3.go:.newEventFromUntrustedJSONV3", "eventV3.go:eventV3.AuthEventIDs", "eventV3.go:eventV3.RoomID", "eventV3.go:eventV3.SetUnsigned", "eventV3.go:eventV3.Sign", "event.go:EventValidationError.Error", "event.go:.SplitID", "event.go:.checkID", "event.go:.checkRoomIDField", "event.go:.checkUntrustedEventJSON", "event.go:.duplicateJSONKey", "event.go:.jsonFieldNames", "eventauth.go:AuthEvents.AddEvent", "eventauth.go:AuthEvents.Clear", "eventauth.go:AuthEvents.Create", "eventauth.go:AuthEvents.JoinRules", "eventauth.go:AuthEvents.Member", "eventauth.go:AuthEvents.PowerLevels", "eventauth.go:AuthEvents.ThirdPartyInvite", "eventauth.go:AuthEvents.Valid", "eventauth.go:NotAllowed.Error", "eventauth.go:StateNeeded.AuthEventReferences", "eventauth.go:StateNeeded.Tuples", "eventauth.go:.Allowed", "eventauth.go:.NewAuthEvents", "eventauth.go:.StateNeededForAuth", "eventauth.go:.StateNeededForProtoEvent", "eventauth.go:.accumulateStateNeeded", "eventauth.go:.allowRestrictedJoins", "eventauth.go:.checkEventLevels", "eventauth.go:.checkKnocking", "eventauth.go:.checkNotificationLevels", "eventauth.go:.checkPowerLevelEventV1", "eventauth.go:.checkPowerLevelEventV2", "eventauth.go:.checkPowerLevelEventV3", "eventauth.go:.checkUserLevels", "eventauth.go:.disallowKnocking", "eventauth.go:.disallowRestrictedJoins", "eventauth.go:.errorf", "eventauth.go:.newAllowerContext", "eventauth.go:.thirdPartyInviteToken", "eventauth.go:allowerContext.aliasEventAllowed", "eventauth.go:allowerContext.allowed", "eventauth.go:allowerContext.createEventAllowed", "eventauth.go:allowerContext.defaultEventAllowed", "eventauth.go:allowerContext.memberEventAllowed", "eventauth.go:allowerContext.newEventAllower", "eventauth.go:allowerContext.newMembershipAllower", "eventauth.go:allowerContext.powerLevelsEventAllowed", "eventauth.go:allowerContext.redactEventAllowed", "eventauth.go:allowerContext.resetCreate", "eventauth.go:allowerContext.update", "eventauth.go:allowerContext.userPowerLevel", "eventauth.go:eventAllower.commonChecks", "eventauth.go:membershipAllower.membershipAllowed", "eventauth.go:membershipAllower.membershipAllowedFromThirdPartyInvite", "eventauth.go:membershipAllower.membershipAllowedOther", "eventauth.go:membershipAllower.membershipAllowedSelf", "eventauth.go:membershipAllower.membershipAllowedSelfForRestrictedJoin", "eventauth.go:membershipAllower.membershipFailed", "eventcontent.go:CreateContent.DomainAllowed", "eventcontent.go:CreateContent.UserIDAllowed", "eventcontent.go:HistoryVisibility.Scan", "eventcontent.go:HistoryVisibility.Value", "eventcontent.go:MXIDMapping.Sign", "eventcontent.go:PowerLevelContent.Defaults", "eventcontent.go:PowerLevelContent.EventLevel", "eventcontent.go:PowerLevelContent.NotificationLevel", "eventcontent.go:PowerLevelContent.UserLevel", "eventcontent.go:.CreatorsFromCreateEvent", "eventcontent.go:.NewCreateContentFromAuthEvents", "eventcontent.go:.NewJoinRuleContentFromAuthEvents", "eventcontent.go:.NewMemberContentFromAuthEvents", "eventcontent.go:.NewMemberContentFromEvent", "eventcontent.go:.NewPowerLevelContentFromAuthEvents", "eventcontent.go:.NewPowerLevelContentFromEvent", "eventcontent.go:.NewThirdPartyInviteContentFromAuthEvents", "eventcontent.go:.checkCreateEventV1", "eventcontent.go:.checkCreateEventV2", "eventcontent.go:.checkCreateEventV3", "eventcontent.go:.domainFromID", "eventcontent.go:.isValidUserID", "eventcontent.go:.parseIntegerPowerLevels", "eventcontent.go:.parsePowerLevels", "eventcontent.go:levelJSONValue.UnmarshalJSON", "eventcontent.go:levelJSONValue.assignIfExists", "eventcontent.go:notNullLevel.UnmarshalJSON", "eventcontent.go:notNullLevels.UnmarshalJSON", "eventcrypto.go:.VerifyAllEventSignatures", "eventcrypto.go:.VerifyEventSignatures", "eventcrypto.go:.addContentHashesToEvent", "eventcrypto.go:.checkEventContentHash", "eventcrypto.go:.emptyAuthorisedViaServerName", "eventcrypto.go:.extractAuthorisedViaServerName", "eventcrypto.go:.getMXIDMapping", "eventcrypto.go:.membershipForSignatures", "eventcrypto.go:.referenceOfEvent", "eventcrypto.go:.referenceOfEventForVersion", "eventcrypto.go:.signEvent", "eventcrypto.go:.validateMXIDMappingSignatures", "eventversion.go:RoomVersionImpl.CheckCanonicalJSON", "eventversion.go:RoomVersionImpl.CheckCreateEvent", "eventversion.go:RoomVersionImpl.CheckKnockingAllowed", "eventversion.go:RoomVersionImpl.CheckPowerLevelEvent", "eventversion.go:RoomVersionImpl.CheckRestrictedJoin", "eventversion.go:RoomVersionImpl.CheckRestrictedJoinsAllowed", "eventversion.go:RoomVersionImpl.DomainlessRoomIDs", "eventversion.go:RoomVersionImpl.EventFormat", "eventversion.go:RoomVersionImpl.EventIDFormat", "eventversion.go:RoomVersionImpl.NewEventBuilder", "eventversion.go:RoomVersionImpl.NewEventBuilderFromProtoEvent", "eventversion.go:RoomVersionImpl.NewEventFromTrustedJSON", "eventversion.go:RoomVersionImpl.NewEventFromTrustedJSONWithEventID", "eventversion.go:RoomVersionImpl.NewEventFromUntrustedJSON", "eventversion.go:RoomVersionImpl.ParsePowerLevels", "eventversion.go:RoomVersionImpl.PrivilegedCreators", "eventversion.go:RoomVersionImpl.RedactEventJSON", "eventversion.go:RoomVersionImpl.RestrictedJoinServername", "eventversion.go:RoomVersionImpl.SignatureValidityCheck", "eventversion.go:RoomVersionImpl.Stable", "eventversion.go:RoomVersionImpl.StateResAlgorithm", "eventversion.go:RoomVersionImpl.Version", "eventversion.go:UnsupportedRoomVersionError.Error", "eventversion.go:.GetRoomVersion", "eventversion.go:.KnownRoomVersion", "eventversion.go:.MustGetRoomVersion", "eventversion.go:.NewEventFromHeaderedJSON", "eventversion.go:.RoomVersions", "eventversion.go:.SetRoomVersion", "eventversion.go:.StableRoomVersion", "eventversion.go:.StableRoomVersions", "fclient/federationtypes.go:DeviceKeys.Scan", "fclient/federationtypes.go:DeviceKeys.Value", "fclient/federationtypes.go:DeviceKeys.isCrossSigningBody", "fclient/federationtypes.go:MSC2836EventRelationshipsRequest.Defaults", "fclient/federationtypes.go:RespInvite.MarshalJSON", "fclient/federationtypes.go:RespInvite.UnmarshalJSON", "fclient/federationtypes.go:RespMakeJoin.GetJoinEvent", "fclient/federationtypes.go:RespMakeJoin.GetRoomVersion", "fclient/federationtypes.go:RespPeek.GetAuthEvents", "fclient/federationtypes.go:RespPeek.GetStateEvents", "fclient/federationtypes.go:RespPeek.MarshalJSON", "fclient/federationtypes.go:RespSendJoin.GetAuthEvents", "fclient/federationtypes.go:RespSendJoin.GetJoinEvent", "fclient/federationtypes.go:RespSendJoin.GetMembersOmitted", "fclient/federationtypes.go:RespSendJoin.GetOrigin", "fclient/federationtypes.go:RespSendJoin.GetServersInRoom", "fclient/federationtypes.go:RespSendJoin.GetStateEvents", "fclient/federationtypes.go:RespSendJoin.MarshalJSON", "fclient/federationtypes.go:RespStateIDs.GetAuthEventIDs", "fclient/federationtypes.go:RespStateIDs.GetStateEventIDs", "fclient/federationtypes.go:RespState.GetAuthEvents", "fclient/federationtypes.go:RespState.GetStateEvents", "fclient/federationtypes.go:RespState.MarshalJSON", "fclient/federationtypes.go:RespUserDevices.UnmarshalJSON", "fclient/federationtypes.go:.NewMSC2836EventRelationshipsRequest", "fclient/request.go:FederationRequest.Content", "fclient/request.go:FederationRequest.Destination", "fclient/request.go:FederationRequest.HTTPRequest", "fclient/request.go:FederationRequest.Method", "fclient/request.go:FederationRequest.Origin", "fclient/request.go:FederationRequest.RequestURI", "fclient/request.go:FederationRequest.SetContent", "fclient/request.go:FederationRequest.Sign", "fclient/request.go:FederationRequest.checkFieldsUTF8", "fclient/request.go:.NewFederationRequest", "fclient/request.go:.ParseAuthorization", "fclient/request.go:.VerifyHTTPRequest", "fclient/request.go:.isSafeInHTTPQuotedString", "fclient/request.go:.readHTTPRequest", "json.go:EventJSONs.TrustedEvents", "json.go:EventJSONs.UntrustedEvents", "json.go:.CanonicalJSON", "json.go:.CanonicalJSONAssumeValid", "json.go:.CompactJSON", "json.go:.EnforcedCanonicalJSON", "json.go:.NewEventJSONsFromEvents", "json.go:.SortJSON", "json.go:.compactUnicodeEscape", "json.go:.isNegativeZeroLiteral", "json.go:.noVerifyCanonicalJSON", "json.go:.readHexDigits", "json.go:.sortJSONArray", "json.go:.sortJSONObject", "json.go:.sortJSONValue", "json.go:.verifyEnforcedCanonicalJSON", "keys.go:ServerKeys.MarshalJSON", "keys.go:ServerKeys.PublicKey", "keys.go:ServerKeys.UnmarshalJSON", "keys.go:.CheckKeys", "keys.go:.checkVerifyKeys", "signing.go:.ListKeyIDs", "signing.go:.SignJSON", "signing.go:.VerifyJSON", "signing.go:.checkStrictJSON", "signing.go:.checkStrictString", "signing.go:.checkStrictValue", "spec/senderid.go:SenderID.IsPseudoID", "spec/senderid.go:SenderID.IsUserID", "spec/senderid.go:SenderID.RawBytes", "spec/senderid.go:SenderID.ToPseudoID", "spec/senderid.go:SenderID.ToUserID", "spec/senderid.go:.SenderIDFromPseudoIDKey", "spec/senderid.go:.SenderIDFromUserID", "stateresolutionv2.go:.HeaderedReverseTopologicalOrdering", "stateresolutionv2.go:.ResolveStateConflictsV2", "stateresolutionv2.go:.ResolveStateConflictsV2New", "stateresolutionv2.go:.ReverseTopologicalOrdering", "stateresolutionv2.go:.creatorsFromCreateEventOrNone", "stateresolutionv2.go:.eventMapFromEvents", "stateresolutionv2.go:.getCreateEvent", "stateresolutionv2.go:.isControlEvent", "stateresolutionv2.go:.kahnsAlgorithmUsingAuthEvents", "stateresolutionv2.go:.kahnsAlgorithmUsingPrevEvents", "stateresolutionv2.go:.newPDUSet", "stateresolutionv2.go:stateResolverV2.applyEvents", "stateresolutionv2.go:stateResolverV2.authAndApplyEvents", "stateresolutionv2.go:stateResolverV2.calculateAuthDifference", "stateresolutionv2.go:stateResolverV2.calculateAuthDifferenceNew", "stateresolutionv2.go:stateResolverV2.calculateFullAuthChainAndConflictedSubgraph", "stateresolutionv2.go:stateResolverV2.createPowerLevelMainline", "stateresolutionv2.go:stateResolverV2.getFirstPowerLevelMainlineEvent", "stateresolutionv2.go:stateResolverV2.getPowerLevelFromAuthEvents", "stateresolutionv2.go:stateResolverV2.mainlineOrdering", "stateresolutionv2.go:stateResolverV2.reverseTopologicalOrdering", "stateresolutionv2.go:stateResolverV2.wrapOtherEventsForSort", "stateresolutionv2.go:stateResolverV2.wrapPowerLevelEventsForSort"]
 
 end VPins.C18
